@@ -430,3 +430,381 @@ theorem lok_nextToken (dia : Dialect) (s : Scan) :
   exact lok_pure _ _ ⟨ha, rfl⟩
 
 end CifModel.Model.Lexer
+
+namespace CifModel.Model.Parser
+open CifModel CifModel.Model CifModel.Model.Lexer
+open CifModel.Gen.ErrCodes
+
+/-! ### Part 2: the productions -/
+
+/-- weight of the pending token: END weighs nothing (it is never consumed) -/
+def pw : Option Tok → Nat
+  | none => 0
+  | some t => if t.ty = .end_ then 0 else pwT t
+
+/-- the potential of a parser state -/
+def U (s : PS) : Nat := s.scan.rest.length + pw s.tok
+
+def FOk {α : Type} (post : α → Prop) (m : P α) : Prop :=
+  ∀ pol w, (∀ i r, pol i r ≠ NOFUEL) →
+    match m pol w with
+    | .ok a _ => post a
+    | .abort rv _ => rv ≠ NOFUEL
+
+theorem fok_pure {α : Type} (post : α → Prop) (a : α) (h : post a) : FOk post (P.pure a) := by
+  intro pol w hp; exact h
+
+theorem fok_fail {α : Type} (post : α → Prop) (code : Int) (h : code ≠ NOFUEL) : FOk post (Parser.fail code : P α) := by
+  intro pol w hp; exact h
+
+theorem fok_bind {α β : Type} (p1 : α → Prop) (p2 : β → Prop) (m : P α) (k : α → P β)
+    (hm : FOk p1 m) (hk : ∀ a, p1 a → FOk p2 (k a)) : FOk p2 (P.bind m k) := by
+  intro pol w hp
+  have h := hm pol w hp
+  unfold P.bind
+  cases h1 : m pol w with
+  | ok a wa => rw [h1] at h; exact hk a h pol wa hp
+  | abort rv wa => rw [h1] at h; exact h
+
+theorem fok_weaken {α : Type} (p1 p2 : α → Prop) (m : P α) (hm : FOk p1 m) (h : ∀ a, p1 a → p2 a) : FOk p2 m := by
+  intro pol w hp
+  have := hm pol w hp
+  cases h1 : m pol w with
+  | ok a wa => rw [h1] at this; exact h a this
+  | abort rv wa => rw [h1] at this; exact this
+
+theorem fok_liftL {α : Type} (post : α → Prop) (m : L α) (hm : LOk post m) : FOk post (liftL m) := by
+  intro pol w hp
+  have h := hm pol w.log hp
+  unfold liftL
+  cases h1 : m pol w.log with
+  | ok a l => rw [h1] at h; exact h
+  | abort rv l => rw [h1] at h; exact h
+
+/-- the callback's answer is never the marker -/
+theorem fok_ask (code : Code) (line col : Nat) : FOk (fun rv => rv ≠ NOFUEL) (ask code line col) := by
+  intro pol w hp
+  exact hp _ _
+
+theorem fok_report (code : Code) (line col : Nat) : FOk (fun _ => True) (report code line col) := by
+  unfold report
+  simp only [bind_eq, pure_eq]
+  refine fok_bind _ _ _ _ (fok_ask code line col) ?_
+  intro rv hrv
+  by_cases h0 : rv = 0
+  · rw [if_pos h0]; exact fok_pure _ _ trivial
+  · rw [if_neg h0]; exact fok_fail _ _ hrv
+
+theorem fok_getCif : FOk (fun _ => True) getCif := by
+  intro pol w hp; trivial
+
+theorem fok_setCif (c : Cif) : FOk (fun _ => True) (setCif c) := by
+  intro pol w hp; trivial
+
+theorem fok_ite {α : Type} (post : α → Prop) (c : Prop) [Decidable c] (a b : P α) (ha : FOk post a) (hb : FOk post b) :
+    FOk post (if c then a else b) := by
+  by_cases h : c
+  · rw [if_pos h]; exact ha
+  · rw [if_neg h]; exact hb
+
+theorem fok_clamp (m : P Unit) (hm : FOk (fun _ => True) m) : FOk (fun _ => True) (clamp m) := by
+  intro pol w hp
+  have h := hm pol w hp
+  unfold clamp
+  cases h1 : m pol w with
+  | ok a wa => trivial
+  | abort rv wa =>
+    rw [h1] at h
+    simp only at h ⊢
+    by_cases hpos : rv > 0
+    · rw [if_pos hpos]; exact h
+    · rw [if_neg hpos]; trivial
+
+/-! #### the potential under the scanner operations of the productions -/
+
+theorem pw_some (t : Tok) : pw (some t) = if t.ty = .end_ then 0 else pwT t := rfl
+theorem pw_none : pw none = 0 := rfl
+
+theorem pw_le (t : Tok) : pw (some t) ≤ pwT t := by
+  rw [pw_some]; split <;> omega
+
+theorem pwT_pos (t : Tok) : 1 ≤ pwT t := by
+  unfold pwT; split
+  · omega
+  · split <;> omega
+
+theorem pw_pos (t : Tok) (h : t.ty ≠ .end_) : 1 ≤ pw (some t) := by
+  rw [pw_some, if_neg h]; exact pwT_pos t
+
+theorem pw_key (t : Tok) (h : isKeyTok t.ty = true) : pw (some t) = 2 := by
+  have hk : t.ty = .key ∨ t.ty = .tkey := by
+    cases ht : t.ty <;> simp [isKeyTok, ht] at h ⊢
+  have he : t.ty ≠ .end_ := by rcases hk with h | h <;> rw [h] <;> decide
+  rw [pw_some, if_neg he]; unfold pwT; rw [if_pos hk]
+
+theorem pw_value (t : Tok) (h : t.ty = .value) : pw (some t) = max 1 t.text.length := by
+  rw [pw_some, if_neg (by rw [h]; decide)]; unfold pwT
+  rw [if_neg (by rw [h]; decide), if_pos h]
+
+theorem U_consume (s : PS) : U (consume s) + pw s.tok = U s := by
+  unfold U consume; simp only [pw_none]; omega
+
+/-- next_token inside the productions: the potential does not grow, and the token is now pending -/
+theorem fok_nextTok (o : Opts) (s : PS) : FOk (fun r => U r.2 ≤ U s ∧ r.2.tok = some r.1) (nextTok o s) := by
+  unfold nextTok
+  cases htok : s.tok with
+  | some t => exact fok_pure _ _ ⟨Nat.le_refl _, htok⟩
+  | none =>
+    simp only [bind_eq, pure_eq]
+    refine fok_bind _ _ _ _ (fok_liftL _ _ (lok_nextToken o.dia s.scan)) ?_
+    intro a ha
+    refine fok_pure _ _ ⟨?_, rfl⟩
+    obtain ⟨ha, _⟩ := ha
+    unfold U
+    simp only [htok, pw_none, pw_some]
+    rcases ha with ⟨h1, h2⟩ | ⟨h1, _, h3⟩
+    · rw [if_pos h1, h2]; simp
+    · rw [if_neg h1]; omega
+
+/-- pushing the colon of a KEY / TKEY back: the potential is unchanged, a value token is pending -/
+theorem U_pushColon (s : PS) (t : Tok) (ht : s.tok = some t) (hk : isKeyTok t.ty = true) :
+    U (pushColon s t (altOf t.ty)).2 = U s ∧
+    ∃ t', (pushColon s t (altOf t.ty)).2.tok = some t' ∧ isValueStart t'.ty = true ∧ isKeyTok t'.ty = false := by
+  have hp := pw_key t hk
+  have halt : altOf t.ty = .tvalue ∨ altOf t.ty = .qvalue := by
+    unfold altOf; split
+    · exact Or.inl rfl
+    · exact Or.inr rfl
+  refine ⟨?_, ⟨_, rfl, ?_, ?_⟩⟩
+  · unfold U pushColon
+    simp only [ht, hp, List.length_cons]
+    have : pw (some { t with ty := altOf t.ty }) = 1 := by
+      rw [pw_some]; unfold pwT
+      rcases halt with h | h <;> simp [h]
+    rw [this]
+  · rcases halt with h | h <;> simp [h, isValueStart]
+  · rcases halt with h | h <;> simp [h, isKeyTok]
+
+theorem colonIdx_bounds (t : Str) (i : Nat) (h : colonIdx t = some i) : 1 ≤ i ∧ i < t.length := by
+  unfold colonIdx at h
+  cases hf : (t.drop 1).findIdx? (· == colon) with
+  | none => rw [hf] at h; cases h
+  | some j =>
+    rw [hf] at h
+    simp only [Option.some.injEq] at h
+    have hj := List.findIdx?_eq_some_iff_getElem.mp hf
+    obtain ⟨hlt, _⟩ := hj
+    rw [List.length_drop] at hlt
+    omega
+
+/-- TRIM_TOKEN of a pending VALUE token to its first `n ≥ 1` units, then CONSUME_TOKEN: the potential drops -/
+theorem U_trim_consume (s : PS) (t : Tok) (n : Nat) (ty : TokType) (ht : s.tok = some t) (hv : t.ty = .value)
+    (h1 : 1 ≤ n) (h2 : n ≤ t.text.length) : U (consume (trimTok s t n ty).2) + 1 ≤ U s := by
+  have hp := pw_value t hv
+  unfold U consume trimTok
+  simp only [ht, hp, pw_none, List.length_append, List.length_drop]
+  omega
+
+attribute [local irreducible] parseValue listLoop tableLoop tableEntry nextTok P.bind P.pure report Parser.fail
+  headerLoop packetsLoop parseContainer elemsLoop blocksLoop getCif setCif FOk
+
+/-- the fuel each production of the value grammar needs, and what it does to the potential -/
+def ValuesOk (o : Opts) (fuel : Nat) : Prop :=
+  (∀ s, 2 * U s + 1 ≤ fuel → FOk (fun r => U r.2 + 1 ≤ U s) (parseValue o fuel s)) ∧
+  (∀ s acc, 2 * U s + 2 ≤ fuel → FOk (fun r => U r.2 ≤ U s) (listLoop o fuel s acc)) ∧
+  (∀ s acc, 2 * U s + 2 ≤ fuel → FOk (fun r => U r.2 ≤ U s) (tableLoop o fuel s acc)) ∧
+  (∀ s acc key, 2 * U s + 3 ≤ fuel → FOk (fun r => U r.2 ≤ U s) (tableEntry o fuel s acc key))
+
+theorem parseValue_step (o : Opts) (fuel : Nat) (ih : ValuesOk o fuel) (s : PS) (hf : 2 * U s + 1 ≤ fuel + 1) :
+    FOk (fun r => U r.2 + 1 ≤ U s) (parseValue o (fuel + 1) s) := by
+  obtain ⟨hv, hl, ht, he⟩ := ih
+  rw [parseValue]
+  simp only [bind_eq, pure_eq]
+  refine fok_bind _ _ _ _ (fok_nextTok o s) ?_
+  rintro ⟨t, s1⟩ ⟨hU, htok⟩
+  simp only at hU htok ⊢
+  have hc := U_consume s1
+  rw [htok] at hc
+  split
+  · rename_i heq
+    have hp := pw_pos t (by rw [heq]; decide)
+    refine fok_bind _ _ _ _ (hl (consume s1) [] (by omega)) ?_
+    intro r (hr : U r.2 ≤ U (consume s1))
+    exact fok_pure _ _ (by show U r.2 + 1 ≤ U s; omega)
+  · rename_i heq
+    have hp := pw_pos t (by rw [heq]; decide)
+    refine fok_bind _ _ _ _ (ht (consume s1) [] (by omega)) ?_
+    intro r (hr : U r.2 ≤ U (consume s1))
+    exact fok_pure _ _ (by show U r.2 + 1 ≤ U s; omega)
+  · rename_i heq
+    have hp := pw_pos t (by rw [heq]; decide)
+    exact fok_pure _ _ (by show U (consume s1) + 1 ≤ U s; omega)
+  · rename_i heq
+    have hp := pw_pos t (by rw [heq]; decide)
+    exact fok_pure _ _ (by show U (consume s1) + 1 ≤ U s; omega)
+  · rename_i heq
+    have hp := pw_pos t (by rw [heq]; decide)
+    split
+    · exact fok_pure _ _ (by show U (consume s1) + 1 ≤ U s; omega)
+    · refine fok_bind _ _ _ _ (fok_report _ _ _) ?_
+      intro _ _
+      exact fok_pure _ _ (by show U (consume s1) + 1 ≤ U s; omega)
+  · exact fok_fail _ _ (by decide)
+
+theorem listLoop_step (o : Opts) (fuel : Nat) (ih : ValuesOk o fuel) (s : PS) (acc : List V) (hf : 2 * U s + 2 ≤ fuel + 1) :
+    FOk (fun r => U r.2 ≤ U s) (listLoop o (fuel + 1) s acc) := by
+  obtain ⟨hv, hl, ht, he⟩ := ih
+  rw [listLoop]
+  simp only [bind_eq, pure_eq]
+  refine fok_bind _ _ _ _ (fok_nextTok o s) ?_
+  rintro ⟨t, s1⟩ ⟨hU, htok⟩
+  simp only at hU htok ⊢
+  have hc := U_consume s1
+  rw [htok] at hc
+  by_cases hk : isKeyTok t.ty = true
+  · rw [if_pos hk]
+    refine fok_bind _ _ _ _ (fok_report _ _ _) ?_
+    intro _ _
+    have hpc := (U_pushColon s1 t htok hk).1
+    refine fok_bind _ _ _ _ (hv _ (by omega)) ?_
+    intro r (hr : U r.2 + 1 ≤ U (pushColon s1 t (altOf t.ty)).2)
+    exact fok_weaken _ _ _ (hl r.2 _ (by omega)) (fun r2 (h2 : U r2.2 ≤ U r.2) => by show U r2.2 ≤ U s; omega)
+  · rw [if_neg hk]
+    by_cases hvs : isValueStart t.ty = true
+    · rw [if_pos hvs]
+      refine fok_bind _ _ _ _ (hv s1 (by omega)) ?_
+      intro r (hr : U r.2 + 1 ≤ U s1)
+      exact fok_weaken _ _ _ (hl r.2 _ (by omega)) (fun r2 (h2 : U r2.2 ≤ U r.2) => by show U r2.2 ≤ U s; omega)
+    · rw [if_neg hvs]
+      by_cases hcl : t.ty = .clist
+      · rw [if_pos hcl]
+        exact fok_pure _ _ (by show U (consume s1) ≤ U s; omega)
+      · rw [if_neg hcl]
+        refine fok_bind _ _ _ _ (fok_report _ _ _) ?_
+        intro _ _
+        exact fok_pure _ _ hU
+
+theorem tableEntry_step (o : Opts) (fuel : Nat) (ih : ValuesOk o fuel) (s : PS) (acc : List (Str × Str × V)) (key : Option Str)
+    (hf : 2 * U s + 3 ≤ fuel + 1) : FOk (fun r => U r.2 ≤ U s) (tableEntry o (fuel + 1) s acc key) := by
+  obtain ⟨hv, hl, ht, he⟩ := ih
+  have hrest : ∀ (f : V → List (Str × Str × V)),
+      FOk (fun r => U r.2 ≤ U s) ((nextTok o s).bind fun x =>
+        if isValueStart x.1.ty = true then (parseValue o fuel x.2).bind fun y => tableLoop o fuel y.2 (f y.1)
+        else (report CIF_MISSING_VALUE x.2.scan.line (x.2.scan.col - x.1.text.length)).bind fun _ => tableLoop o fuel x.2 (f V.unk)) := by
+    intro f
+    refine fok_bind _ _ _ _ (fok_nextTok o s) ?_
+    rintro ⟨t, s1⟩ ⟨hU, htok⟩
+    simp only at hU htok ⊢
+    by_cases hvs : isValueStart t.ty = true
+    · rw [if_pos hvs]
+      refine fok_bind _ _ _ _ (hv s1 (by omega)) ?_
+      intro r (hr : U r.2 + 1 ≤ U s1)
+      exact fok_weaken _ _ _ (ht r.2 _ (by omega)) (fun r2 (h2 : U r2.2 ≤ U r.2) => by show U r2.2 ≤ U s; omega)
+    · rw [if_neg hvs]
+      refine fok_bind _ _ _ _ (fok_report _ _ _) ?_
+      intro _ _
+      exact fok_weaken _ _ _ (ht s1 _ (by omega)) (fun r2 (h2 : U r2.2 ≤ U s1) => by show U r2.2 ≤ U s; omega)
+  cases key with
+  | none =>
+    rw [tableEntry]
+    simp only [bind_eq, pure_eq]
+    exact hrest (fun _ => acc)
+  | some k =>
+    rw [tableEntry]
+    simp only [bind_eq, pure_eq]
+    by_cases hd : hasDisallowed k = true
+    · rw [if_pos hd]
+      exact fok_bind (fun _ => True) _ _ _ (fok_fail _ _ (by decide)) (fun _ _ => hrest (fun v => tableSet o.normKey acc k v))
+    · rw [if_neg hd]
+      exact hrest (fun v => tableSet o.normKey acc k v)
+
+theorem tableLoop_step (o : Opts) (fuel : Nat) (ih : ValuesOk o fuel) (s : PS) (acc : List (Str × Str × V))
+    (hf : 2 * U s + 2 ≤ fuel + 1) : FOk (fun r => U r.2 ≤ U s) (tableLoop o (fuel + 1) s acc) := by
+  obtain ⟨hv, hl, ht, he⟩ := ih
+  rw [tableLoop]
+  simp only [bind_eq, pure_eq]
+  refine fok_bind _ _ _ _ (fok_nextTok o s) ?_
+  rintro ⟨t, s1⟩ ⟨hU, htok⟩
+  simp only at hU htok ⊢
+  have hc := U_consume s1
+  rw [htok] at hc
+  -- continue with the entry / the loop from a state whose potential has dropped
+  have entry : ∀ (s2 : PS) acc' key, U s2 + 1 ≤ U s1 → FOk (fun r => U r.2 ≤ U s) (tableEntry o fuel s2 acc' key) :=
+    fun s2 acc' key h => fok_weaken _ _ _ (he s2 acc' key (by omega)) (fun r (hr : U r.2 ≤ U s2) => by show U r.2 ≤ U s; omega)
+  have loop : ∀ (s2 : PS) acc', U s2 + 1 ≤ U s1 → FOk (fun r => U r.2 ≤ U s) (tableLoop o fuel s2 acc') :=
+    fun s2 acc' h => fok_weaken _ _ _ (ht s2 acc' (by omega)) (fun r (hr : U r.2 ≤ U s2) => by show U r.2 ≤ U s; omega)
+  split
+  · -- VALUE
+    rename_i heq
+    have hp := pw_pos t (by rw [heq]; decide)
+    have hpv := pw_value t heq
+    by_cases hcol : t.text.head? = some colon
+    · rw [if_pos hcol]
+      refine fok_bind _ _ _ _ (fok_report _ _ _) ?_
+      intro _ _
+      by_cases hlen : t.text.length > 1
+      · simp only [hlen, if_true]
+        exact entry _ _ _ (U_trim_consume s1 t 1 .value htok heq (Nat.le_refl _) (by omega))
+      · simp only [hlen, if_false]
+        exact entry _ _ _ (by omega)
+    · rw [if_neg hcol]
+      split
+      · rename_i i hci
+        have hb := colonIdx_bounds t.text i hci
+        refine fok_bind _ _ _ _ (fok_report _ _ _) ?_
+        intro _ _
+        exact entry _ _ _ (U_trim_consume s1 t (i + 1) .key htok heq (by omega) (by omega))
+      · refine fok_bind _ _ _ _ (fok_report _ _ _) ?_
+        intro _ _
+        exact loop _ _ (by omega)
+  · -- KEY
+    rename_i heq
+    have hp := pw_pos t (by rw [heq]; decide)
+    exact entry _ _ _ (by omega)
+  · -- TKEY
+    rename_i heq
+    have hp := pw_pos t (by rw [heq]; decide)
+    refine fok_bind _ _ _ _ (fok_report _ _ _) ?_
+    intro _ _
+    exact entry _ _ _ (by omega)
+  · -- a value where a key is due
+    refine fok_bind _ _ _ _ (fok_report _ _ _) ?_
+    intro _ _
+    refine fok_bind _ _ _ _ (hv s1 (by omega)) ?_
+    intro r (hr : U r.2 + 1 ≤ U s1)
+    exact loop _ _ hr
+  · -- a value where a key is due
+    refine fok_bind _ _ _ _ (fok_report _ _ _) ?_
+    intro _ _
+    refine fok_bind _ _ _ _ (hv s1 (by omega)) ?_
+    intro r (hr : U r.2 + 1 ≤ U s1)
+    exact loop _ _ hr
+  · -- a value where a key is due
+    refine fok_bind _ _ _ _ (fok_report _ _ _) ?_
+    intro _ _
+    refine fok_bind _ _ _ _ (hv s1 (by omega)) ?_
+    intro r (hr : U r.2 + 1 ≤ U s1)
+    exact loop _ _ hr
+  · -- a value where a key is due
+    refine fok_bind _ _ _ _ (fok_report _ _ _) ?_
+    intro _ _
+    refine fok_bind _ _ _ _ (hv s1 (by omega)) ?_
+    intro r (hr : U r.2 + 1 ≤ U s1)
+    exact loop _ _ hr
+  · -- CTABLE
+    exact fok_pure _ _ (by show U (consume s1) ≤ U s; omega)
+  · refine fok_bind _ _ _ _ (fok_report _ _ _) ?_
+    intro _ _
+    exact fok_pure _ _ hU
+
+/-- **the value grammar never runs out of fuel**: `2·U + c` levels suffice -/
+theorem values_ok (o : Opts) : ∀ fuel, ValuesOk o fuel := by
+  intro fuel
+  induction fuel with
+  | zero =>
+    refine ⟨?_, ?_, ?_, ?_⟩ <;> intros <;> omega
+  | succ fuel ih =>
+    exact ⟨fun s h => parseValue_step o fuel ih s h, fun s acc h => listLoop_step o fuel ih s acc h,
+           fun s acc h => tableLoop_step o fuel ih s acc h, fun s acc key h => tableEntry_step o fuel ih s acc key h⟩
+
+end CifModel.Model.Parser
